@@ -3,7 +3,9 @@
 Proof: Props/C13.lean about the model of `namedtensor_calltensorfactory` (Factory/Model.lean, parameterised by
 Extracted/Factory.lean) and about the graph checker `factoryOK` (Factory/Check.lean): `checker_sound` — a graph
 accepted by the checker invokes every factory exactly once, with exactly the solved shape and the model's
-keywords, in every execution that runs each reachable node once (C04 `emit_once`, assumed).
+keywords, in every execution that runs each reachable node once (`Exec`).  Props/C13Exec.lean discharges `Exec` for the
+program the code generator emits (`exec_from_compile`, with C04's `visitOrder_nodup`/`emit_once_wf`/`compile_correct_wf`) and
+derives `factory_called_once_compiled`: exactly one call event per factory node in the event trace of the compiled program.
 
 Tie (T-str): the REAL traced graph (before and after optimisation) of every generated call in which a non-empty
 subset of the tensor positions is replaced by factories is decoded and checked by `factoryOK` in the Lean driver;
@@ -29,9 +31,10 @@ import warnings
 
 import numpy as np
 
-from lib import core, gen, graphcap
+from lib import core, exectie, gen, graphcap
 
 EXTRACTORS = ["Factory"]
+EXTRA_PROPS = ["C13Exec"]
 
 _MISSING = "<not-passed>"          # default of the optional keywords (hashable, part of einx's cache key)
 OPTIONAL = ("name", "arg_index", "signature")
@@ -597,6 +600,11 @@ def lean_tie(ctx, case, ex):
             ctx.extra["graphs_checked"] = ctx.extra.get("graphs_checked", 0) + 1
         if which == "pre" and not r.get("trace_pure", False) and r.get("reason") != "inlined":
             ctx.tie_broken("checker:trace-purity", f"{sig_of(case, 'trace purity')}: a Call node of the traced graph lacks a graph input among its dependencies")
+    # work package "exec": the graph that was compiled, translated from the C04 graph; premises and instance of
+    # exec_from_compile / factory_called_once_compiled (Props/C13Exec.lean)
+    cg = ex.rec.get("compiled_graph")
+    if cg is not None:
+        exectie.exec_factory(ctx, cg, ex.rec.get("code"), call["op"], argsd, sig_of(case, "exec"))
     # emitted text vs model node list
     code = ex.rec.get("code")
     if not code:
@@ -784,7 +792,7 @@ def run(ctx):
                          "all-tensor call when the factory's shape is not otherwise determined; each case is executed cold, cached with the same and with different factory objects, "
                          "with graph=True (cached and cold), in up to 5 rejected forms and with misbehaving factories, plus interleaved sequences; one evaluation = one case (about 12 "
                          "executions); non-trivial = rank >= 2 factory or optional keywords declared or several factories; distinct by (op, description, shapes, positions, styles)")
-    ctx.assumptions.append("C04 emit_once (every reachable node of the compiled graph is executed exactly once per call) is a hypothesis of checker_sound; the emitted text of every cold case is compared with the model on this run")
+    ctx.assumptions.append("Exec (every reachable node of the compiled graph is evaluated exactly once per call) is proved for the emitted program (Props/C13Exec.lean: exec_from_compile) under the decidable premises wf_graph/supported/fwf, which are evaluated on every compiled graph of this run together with the instance of the conclusion (histogram exec-thm:*); the model text is compared with the real emitted text; CPython executing the emitted text statement by statement is trusted")
     ctx.assumptions.append("a Cast is the identity at run time and no node other than a Cast returns the factory object itself")
     ctx.assumptions.append("in-process runs use the harness interpreter's flags; a forked interpreter with -O re-runs the misbehaving-factory cases")
     ctx.assumptions.append("a factory whose first parameter is itself called name/arg_index/signature is outside the property (einx passes the keyword and Python rejects the call)")
